@@ -228,6 +228,52 @@ func apply(root protoreflect.Message, mu mutation, ctr int) bool {
 	return false
 }
 
+// allocateEmpties turns unset map and list fields into empty, allocated ones (what the
+// constructors NewNode, NewEdge, NewNodeList produce, and what decoding never produces).
+func allocateEmpties(m protoreflect.Message, depth int) {
+	fds := m.Descriptor().Fields()
+	for i := 0; i < fds.Len(); i++ {
+		fd := fds.Get(i)
+		switch {
+		case fd.IsMap():
+			mp := m.Mutable(fd).Map()
+			if mp.Len() == 0 {
+				// Mutable allocates; set and clear a key so that the allocation survives
+				var k protoreflect.MapKey
+				switch fd.MapKey().Kind() {
+				case protoreflect.StringKind:
+					k = protoreflect.ValueOfString("").MapKey()
+				case protoreflect.Int32Kind, protoreflect.Sint32Kind, protoreflect.Sfixed32Kind:
+					k = protoreflect.ValueOfInt32(0).MapKey()
+				default:
+					continue
+				}
+				if fd.MapValue().Kind() == protoreflect.MessageKind {
+					continue
+				}
+				mp.Set(k, fd.MapValue().Default())
+				mp.Clear(k)
+			} else if fd.MapValue().Kind() == protoreflect.MessageKind && depth < 6 {
+				mp.Range(func(_ protoreflect.MapKey, v protoreflect.Value) bool {
+					allocateEmpties(v.Message(), depth+1)
+					return true
+				})
+			}
+		case fd.IsList():
+			l := m.Mutable(fd).List()
+			if fd.Kind() == protoreflect.MessageKind && depth < 6 {
+				for j := 0; j < l.Len(); j++ {
+					allocateEmpties(l.Get(j).Message(), depth+1)
+				}
+			}
+		case fd.Kind() == protoreflect.MessageKind:
+			if m.Has(fd) && depth < 6 {
+				allocateEmpties(m.Mutable(fd).Message(), depth+1)
+			}
+		}
+	}
+}
+
 // ---- heap ----
 
 type slotVal struct {
@@ -661,8 +707,12 @@ func execC12(sc *core.Scenario) *core.Result {
 		return res
 	}
 	env := &c12env{probes: map[string]int{}}
-	for _, v := range sp.Vals {
-		env.add(valFrom(v), "seed")
+	for i, v := range sp.Vals {
+		m := valFrom(v)
+		if i%2 == 1 || sc.Run%3 == 0 {
+			allocateEmpties(m.ProtoReflect(), 0) // values built with NewNode()/NewNodeList() carry empty, non-nil collections
+		}
+		env.add(m, "seed")
 	}
 	verifsim.ClockSet(baseClock)
 	tasks := sp.Tasks
